@@ -3,12 +3,8 @@ import json, os, sys
 import jsonschema
 from .core import VERIF
 
-PROPS = {}  # id -> dict(level_text, level_note, technique, design_ref)
-
-def reg(pid, text, note, technique, design_ref, category="proof"):
-    PROPS[pid] = dict(text=text, note=note, technique=technique, design_ref=design_ref, category=category)
-
-from . import claims  # noqa: E402  (fills PROPS)
+from . import claims
+PROPS = claims.PROPS
 
 ALL = [f"C{i:02d}" for i in range(1, 21)]
 
